@@ -19,3 +19,19 @@ package conf
 //@   modifies nothing
 //@   loop 1 invariant 0 <= _i && _i <= len(d) && forall(k, 0, _i, !netContains(net.IPNet(d[k]), ip))
 //@   ensures result == ipsContain(d, ip)
+
+//@ func IsValidPathName
+//@   property C06, C14
+//@   modifies nothing
+//@   loop 1 invariant 0 <= _i && _i <= splitCount(name, "/") && forall(k, 0, _i, splitPart(name, "/", k) != "." && splitPart(name, "/", k) != "..")
+//@   ensures [accepts-exactly-valid-names] (result == nil) == validName(name)
+
+//@ func FindPathConf
+//@   property C06, C14
+//@   modifies nothing
+//@   loop 1 invariant isnil(regexpPathConfs) || fresh(regexpPathConfs)
+//@   loop 2 invariant 0 <= _i && _i <= len(regexpPathConfs)
+//@   ensures [static-hit] old(has(pathConfs, name)) ==> result0 == old(pathConfs[name]) && isnil(result1) && result2 == nil
+//@   ensures [invalid-name-rejected] !old(has(pathConfs, name)) && !validName(name) ==> result2 != nil
+//@   ensures [otherwise-valid] result2 == nil ==> old(has(pathConfs, name)) || validName(name)
+//@   ensures [error-returns-nothing] result2 != nil ==> result0 == nil && isnil(result1)
